@@ -44,6 +44,9 @@ CONSTANTS
   MaxBlockTxs,   \* bound: transactions in a block mined on the tip
   MaxReorgTxs,   \* bound: transactions in the blocks of a new branch
   Standalone,    \* enable the free-standing Remove*/ProcessOrphans calls
+  DisconnectEvicts, \* FALSE: NTBlockDisconnected as netsync implements it; TRUE: the repaired protocol
+                 \* (spenders of the disconnected coinbase and of transactions that could not be
+                 \* re-added are evicted), under which `stale` stays empty
   Script         \* <<>>: every interleaving; otherwise the only schedule explored, a sequence of
                  \* <<kind, tx>> with kind 1 = ProcessTx(tx, TRUE), 2 = CheckAccept(tx), 3 = RemoveTx(tx, TRUE)
                  \* (boundary scenarios with a hundred transactions)
@@ -291,7 +294,7 @@ ConnectSeqOutcomes(s, P, cv) ==   \* P: set of pool states
 \* NTBlockDisconnected, one transaction; chain state = ch (block already disconnected)
 DisconnectTx(t, ps, cv) ==
   LET m == MaybeAccept(t, ps, cv, FALSE, FALSE, TRUE)
-  IN IF m.r.res >= 10 THEN RemoveTransaction(m.ps, t, TRUE) ELSE m.ps
+  IN IF m.r.res >= 10 \/ (DisconnectEvicts /\ m.r.res = RMiss) THEN RemoveTransaction(m.ps, t, TRUE) ELSE m.ps
 
 RECURSIVE DisconnectSeq(_, _, _)
 DisconnectSeq(s, ps, cv) ==
@@ -302,7 +305,10 @@ RECURSIVE DisconnectDown(_, _, _, _)
 DisconnectDown(ch, k, ps, cont) ==
   IF Len(ch) <= k THEN ps
   ELSE LET ch1 == SubSeq(ch, 1, Len(ch) - 1)
-       IN DisconnectDown(ch1, k, DisconnectSeq(cont[ch[Len(ch)]], ps, CV(ch1, cont)), cont)
+           b   == ch[Len(ch)]
+           cbs == {Lookup(ps.sb, CB(b))} \ {0}      \* pooled spender of the coinbase that disappears
+           ps0 == IF DisconnectEvicts THEN RemoveTxs(ps, UNION {RemSet(x, ps) : x \in cbs}) ELSE ps
+       IN DisconnectDown(ch1, k, DisconnectSeq(cont[b], ps0, CV(ch1, cont)), cont)
 
 \* connect the blocks nc[k+1..] one after the other
 RECURSIVE ConnectUp(_, _, _, _)
@@ -516,7 +522,10 @@ Minable == (stale = {} /\ HeightGuard) => BodyOK(Pooled, chain, content)
 \* nothing pooled is already confirmed
 NotConfirmed == stale = {} => Pooled \cap Confirmed(chain, content) = {}
 
-Inv == TypeOK /\ NoConflict /\ InputsAvailable /\ IndexAgrees /\ OrphanIndexAgrees
+\* with the repaired disconnect protocol nothing is ever left behind
+NoStale == DisconnectEvicts => stale = {}
+
+Inv == TypeOK /\ NoStale /\ NoConflict /\ InputsAvailable /\ IndexAgrees /\ OrphanIndexAgrees
        /\ OrphanBounds /\ Minable /\ NotConfirmed
 
 \* a rejected submission leaves pool, index and orphans unchanged
@@ -536,6 +545,6 @@ EmitExp == PrintT(ToString(<<424242, [chain |-> chain, content |-> content, pool
                              obp |-> obp, penny |-> penny, stale |-> stale, step |-> step], ExpOf(PS, CVnow)>>))
 
 \* NOT satisfied by the code (and by this model of it): a dry run should not
-\* touch the rate limiter either.  Checked only by MCDryRun.cfg to document it.
+\* touch the rate limiter either.  MC_free_dryrun.cfg (module MC_free) lets TLC exhibit the counterexample.
 DryRunIsStutter == [][\A t \in Txs : CheckAccept(t) => UNCHANGED vars]_vars
 =============================================================================
